@@ -25,7 +25,7 @@ WORLDS = [
     {"files": {"m.ts": "ts.multi2", "x/y/z/w.ts": "ts.one61", "x/y/p.py": "py.nested", "q.c": "c.strings", "café.py": "py.one2"},
      "older": [{"op": "delete", "path": "q.c"}, {"op": "write", "path": "x/n.js", "content": "js.one31"}]},
     {"files": {"only.py": "py.empty"}, "older": [{"op": "write", "path": "only.py", "content": "py.one2"}]},
-    {"files": {"caf\udce9.py": "py.one16", "cafe\u0301/we\"ird.js": "js.one31", "back\\slash.c": "c.one2"},
+    {"files": {"caf\udce9.py": "py.one16", "caf\udce8.py": "py.one31", "cafe\u0301/we\"ird.js": "js.one31", "back\\slash.c": "c.one2"},
      "older": [{"op": "write", "path": "caf\udce9.py", "content": "py.one61"}]},
 ]
 KINDS = ("crash", "enospc", "eio")
